@@ -23,6 +23,8 @@ pub fn gen_sources(tier: &str, seed: u64) -> Vec<String> {
         "<c><v slot:a slot:b-c=\"a\" x=\"{{ a }}{{ bC }}\">{{ a }}{{ b }}</v>{{ a }}</c>".into(),
         "<v wx:if=\"{{ item }}\" wx:for=\"{{ l }}\">{{ item }}</v><v wx:elif=\"{{ item }}\"/>".into(),
         "<slot name=\"{{ a }}\" v=\"{{ b }}\" id=\"{{ c }}\"/><include src=\"x\"/>{{ d }}".into(),
+        // consecutive empty array slots before an item that reads a field
+        "<v x=\"{{ [ , , a] }}\" y=\"{{ [ , , , ...c, , , d] }}\">{{ a }}{{ c }}{{ d }}</v><w wx:if=\"{{ [ , , , b][3] }}\">{{ b }}</w>{{ b }}".into(),
     ];
     for i in 0..n {
         let cfg = TmplCfg { max_depth: 2 + (i % 3), expr_depth: 1 + (i % 3), allow_include: if i % 9 == 0 { vec!["/inc".into()] } else { vec![] }, ..Default::default() };
